@@ -182,7 +182,7 @@ namespace ratio
                                     assert(nc);
                                 }
                     }
-                    var_expr e = get_core().new_enum(get_type().get_field(name).get_type(), c_vars, c_vals);
+                    expr e = get_core().new_enum(get_type().get_field(name).get_type(), c_vars, c_vals); // a bool, an arithmetic or an object variable, according to the type of the field..
                     exprs.insert({name, e});
                     return e;
                 }
